@@ -2,11 +2,18 @@
 
 * the four `static double` tables a[32], d[31], t[31], h[31] of esl_rnd_Gaussian -> `gaussTables : GaussTables Float`
   (each literal converted with the C/IEEE decimal->binary64 conversion = Python float; written as bit patterns);
-* the ordered integer literals of mersenne_twister / mersenne_fill_table / mersenne_seed_table / knuth / esl_rand64 /
-  mt64_fill_table / mt64_seed_table -> `List Nat`s that Props/C09.lean compares (by `decide`) with the published
-  MT19937 / MT19937-64 constants the hand model is written with.
-A table that cannot be found or has the wrong length raises (= failed obligation)."""
-import os, re, struct
+* the constants of the three generators, obtained SEMANTICALLY: a tiny C program is compiled against the working tree
+  (`#include "esl_random.c"` / `"esl_rand64.c"`, so the static functions and whatever macros name their constants are the real
+  ones) and PROBES mersenne_twister / mersenne_fill_table / mersenne_seed_table / knuth / esl_rand64 / mt64_fill_table /
+  mt64_seed_table: table length, tempering images of the 32 (64) basis words, one refill of tables holding a single word,
+  seed tables of chosen seeds.  From the answers this module derives the canonical constants
+  (N, M, matrix A, upper mask, lower mask, seeding multiplier[, seeding shift]; LCG a, c) and VALIDATES that the probed
+  functions are the MT recurrence with exactly those constants on random tables/words (tempering is checked to be XOR-linear,
+  so its basis images determine it).  The result does not depend on how the source spells a constant (literal, macro,
+  expression); a value that cannot be derived or fails validation raises (= failed obligation `translator`).
+  Props/C09.lean proves (by `decide`) that the regenerated values are the published MT19937 / MT19937-64 constants and that
+  the hand model's `twist32/temper32/P32`, `twist64/temper64/P64`, `Rng.next` use exactly them."""
+import os, re, struct, hashlib, subprocess, tempfile
 
 OUT = "EaselModel/Generated/RandTables.lean"
 
@@ -27,12 +34,6 @@ def _func_body(src, name):
         i += 1
     return src[m.end():i - 1]
 
-def _int_lits(body):
-    out = []
-    for t in re.findall(r"(?<![\w.])(0[xX][0-9a-fA-F]+|\d+)(?:[uU]?[lL]{0,2})(?![\w.])", body):
-        out.append(int(t, 16) if t.lower().startswith("0x") else int(t))
-    return out
-
 def gauss_tables(src):
     body = _func_body(src, "esl_rnd_Gaussian")
     tabs = {}
@@ -45,21 +46,185 @@ def gauss_tables(src):
         tabs[name] = vals
     return tabs
 
+# ------------------------------------------------------------------------------------------------------------------
+# the prober
+D32 = r'''
+#include "esl_random.c"
+#include <stdio.h>
+static uint32_t prng32(uint32_t *s) { *s = *s * 1664525u + 1013904223u; return *s ^ (*s >> 15); }
+void c09_dump32(void)
+{
+  static ESL_RANDOMNESS r; int i, p, N = (int)(sizeof(r.mt) / sizeof(r.mt[0])); uint32_t s = 12345u;
+  memset(&r, 0, sizeof r); r.type = eslRND_MERSENNE;
+  printf("N32 %d\n", N);
+  for (i = 0; i < 32; i++) { r.mti = 0; r.mt[0] = (uint32_t) 1 << i; printf("T32 %d %" PRIu32 "\n", i, mersenne_twister(&r)); }
+  r.mti = 0; r.mt[0] = 0; printf("T32Z %" PRIu32 "\n", mersenne_twister(&r));
+  for (i = 0; i < 64; i++) { uint32_t x = prng32(&s); r.mti = 0; r.mt[0] = x; printf("T32R %" PRIu32 " %" PRIu32 "\n", x, mersenne_twister(&r)); }
+  { uint32_t seeds[3] = { 1u, 0x9e3779b9u, 0xffffffffu };
+    for (p = 0; p < 3; p++) { mersenne_seed_table(&r, seeds[p]); printf("S32 %" PRIu32 " %" PRIu32 " %" PRIu32 " %" PRIu32 " %" PRIu32 " %" PRIu32 "\n", seeds[p], r.mt[0], r.mt[1], r.mt[2], r.mt[N-1], r.seed); } }
+  { uint32_t xs[3] = { 0u, 1u, 123456789u };
+    r.type = eslRND_FAST; for (p = 0; p < 3; p++) { r.x = xs[p]; printf("K32 %" PRIu32 " %" PRIu32 "\n", xs[p], knuth(&r)); } r.type = eslRND_MERSENNE; }
+  /* refill probes: a table holding one non-zero word */
+  { struct { int idx; uint32_t v; } pr[3] = { { N-1, 4u }, { 5, 1u }, { 5, 0xffffffffu } };
+    for (p = 0; p < 3; p++) {
+      memset(r.mt, 0, sizeof r.mt); r.mt[pr[p].idx] = pr[p].v; mersenne_fill_table(&r);
+      printf("F32 %d mti=%d", p, r.mti); for (i = 0; i < N; i++) if (r.mt[i]) printf(" %d:%" PRIu32, i, r.mt[i]); printf("\n"); } }
+  /* refill of random tables, input and output in full */
+  for (p = 0; p < 3; p++) {
+    for (i = 0; i < N; i++) r.mt[i] = prng32(&s);
+    printf("RI32 %d", p); for (i = 0; i < N; i++) printf(" %" PRIu32, r.mt[i]); printf("\n");
+    mersenne_fill_table(&r);
+    printf("RO32 %d", p); for (i = 0; i < N; i++) printf(" %" PRIu32, r.mt[i]); printf("\n"); }
+}
+'''
+D64 = r'''
+#include "esl_rand64.c"
+#include <stdio.h>
+static uint64_t prng64(uint64_t *s) { *s = *s * 6364136223846793005ULL + 1442695040888963407ULL; return *s ^ (*s >> 29); }
+void c09_dump64(void)
+{
+  static ESL_RAND64 r; int i, p, N = (int)(sizeof(r.mt) / sizeof(r.mt[0])); uint64_t s = 987654321ULL;
+  memset(&r, 0, sizeof r);
+  printf("N64 %d\n", N);
+  for (i = 0; i < 64; i++) { r.mti = 0; r.mt[0] = (uint64_t) 1 << i; printf("T64 %d %" PRIu64 "\n", i, esl_rand64(&r)); }
+  r.mti = 0; r.mt[0] = 0; printf("T64Z %" PRIu64 "\n", esl_rand64(&r));
+  for (i = 0; i < 64; i++) { uint64_t x = prng64(&s); r.mti = 0; r.mt[0] = x; printf("T64R %" PRIu64 " %" PRIu64 "\n", x, esl_rand64(&r)); }
+  { uint64_t seeds[4] = { 0ULL, 0x8000000000000000ULL, 0x9e3779b97f4a7c15ULL, 0xffffffffffffffffULL };
+    for (p = 0; p < 4; p++) { mt64_seed_table(&r, seeds[p]); printf("S64 %" PRIu64 " %" PRIu64 " %" PRIu64 " %" PRIu64 " %" PRIu64 " %" PRIu64 " %" PRIu64 "\n", seeds[p], r.mt[0], r.mt[1], r.mt[2], r.mt[3], r.mt[N-1], r.seed); } }
+  { struct { int idx; uint64_t v; } pr[3] = { { N-1, 4ULL }, { 5, 1ULL }, { 5, 0xffffffffffffffffULL } };
+    for (p = 0; p < 3; p++) {
+      memset(r.mt, 0, sizeof r.mt); r.mt[pr[p].idx] = pr[p].v; mt64_fill_table(&r);
+      printf("F64 %d mti=%d", p, r.mti); for (i = 0; i < N; i++) if (r.mt[i]) printf(" %d:%" PRIu64, i, r.mt[i]); printf("\n"); } }
+  for (p = 0; p < 3; p++) {
+    for (i = 0; i < N; i++) r.mt[i] = prng64(&s);
+    printf("RI64 %d", p); for (i = 0; i < N; i++) printf(" %" PRIu64, r.mt[i]); printf("\n");
+    mt64_fill_table(&r);
+    printf("RO64 %d", p); for (i = 0; i < N; i++) printf(" %" PRIu64, r.mt[i]); printf("\n"); }
+}
+'''
+DMAIN = r'''
+void c09_dump32(void); void c09_dump64(void);
+int main(void) { c09_dump32(); c09_dump64(); return 0; }
+'''
+
+def _probe(ctx):
+    """compile + run the prober against ctx.src; the executable is cached beside the content-addressed library build"""
+    tag = hashlib.sha1((D32 + D64 + DMAIN).encode()).hexdigest()[:12]
+    exe = os.path.join(ctx.src, "c09_probe_" + tag)
+    if not os.path.exists(exe):
+        try:
+            from vlib.engine import SAN_FLAGS as flags
+        except Exception:
+            flags = ["-O1", "-g", "-ffp-contract=off", "-fsanitize=address,undefined", "-DEASEL_VERIF"]
+        with tempfile.TemporaryDirectory(prefix="c09probe.") as td:
+            for n, t in (("d32.c", D32), ("d64.c", D64), ("dmain.c", DMAIN)):
+                open(os.path.join(td, n), "w").write(t)
+            tmp = os.path.join(td, "probe")
+            cmd = ["gcc", "-I" + ctx.src, "-pthread"] + list(flags) + ["-Wl,--allow-multiple-definition",
+                   os.path.join(td, "d32.c"), os.path.join(td, "d64.c"), os.path.join(td, "dmain.c"),
+                   "-o", tmp, os.path.join(ctx.src, "libeasel.a"), "-lm", "-lpthread"]
+            p = subprocess.run(cmd, cwd=ctx.src, stdout=subprocess.PIPE, stderr=subprocess.PIPE, text=True)
+            if p.returncode != 0:
+                raise RuntimeError("rand_tables: the constant prober does not compile against the working tree: " + p.stderr[-1500:])
+            try:
+                os.replace(tmp, exe)
+            except OSError:
+                import shutil; shutil.copy2(tmp, exe)
+    p = subprocess.run([exe], stdout=subprocess.PIPE, stderr=subprocess.PIPE, text=True, timeout=120,
+                       env=dict(os.environ, ASAN_OPTIONS="detect_leaks=0"))
+    if p.returncode != 0:
+        raise RuntimeError("rand_tables: the constant prober died (a probe left the table?): " + (p.stderr or p.stdout)[-1500:])
+    return p.stdout
+
+def _derive(lines, bits):
+    """canonical constants of one Mersenne Twister from the probe answers; raises when the probed functions are not the MT
+    recurrence with the derived constants"""
+    W = (1 << bits) - 1
+    b = str(bits)
+    g = lambda key: [l.split()[1:] for l in lines if l.split()[0] == key + b]
+    N = int(g("N")[0][0])
+    basis = [None] * bits
+    for i, v in g("T"): basis[int(i)] = int(v)
+    if any(v is None for v in basis) or int(g("T")[0][1]) is None: raise RuntimeError("rand_tables: tempering probes incomplete")
+    if int([l.split()[1] for l in lines if l.split()[0] == "T%sZ" % b][0]) != 0:
+        raise RuntimeError("rand_tables: tempering of the zero word is not zero (%d bit)" % bits)
+    for x, tx in [(int(a), int(c)) for a, c in [l.split()[1:] for l in lines if l.split()[0] == "T%sR" % b]]:
+        e = 0
+        for i in range(bits):
+            if x >> i & 1: e ^= basis[i]
+        if e != tx: raise RuntimeError("rand_tables: %d-bit tempering is not XOR-linear at word %d" % (bits, x))
+    # refill probes
+    F = {}
+    for l in lines:
+        w = l.split()
+        if w[0] == "F" + b:
+            if w[2] != "mti=0": raise RuntimeError("rand_tables: refill leaves %s, expected mti=0" % w[2])
+            F[int(w[1])] = {int(t.split(":")[0]): int(t.split(":")[1]) for t in w[3:]}
+    try:
+        i4 = min(i for i, v in F[0].items() if v == 4)     # first word that received mt[N-1] as its mt[z+M] (later ones are echoes)
+        M = N - 1 - i4
+        A = F[1][4]
+        UM = (F[2][5] << 1) & W
+        LM = (((F[2][4] ^ A) << 1) | 1) & W
+    except Exception as e:
+        raise RuntimeError("rand_tables: %d-bit refill probes do not have the shape of the MT recurrence (%r)" % (bits, F))
+    if not (0 < M < N) or (UM ^ LM) != W or (UM & LM): raise RuntimeError("rand_tables: derived M=%d UM=%x LM=%x inconsistent" % (M, UM, LM))
+    # validation: the C refill of random tables is the in-place MT refill with (N, M, A, UM, LM)
+    RI = {int(l.split()[1]): [int(t) for t in l.split()[2:]] for l in lines if l.split()[0] == "RI" + b}
+    RO = {int(l.split()[1]): [int(t) for t in l.split()[2:]] for l in lines if l.split()[0] == "RO" + b}
+    for k, t in RI.items():
+        t = list(t)
+        for z in range(N):
+            y = (t[z] & UM) | (t[(z + 1) % N] & LM)
+            t[z] = t[(z + M) % N] ^ (y >> 1) ^ (A if y & 1 else 0)
+        if t != RO[k]:
+            bad = [z for z in range(N) if t[z] != RO[k][z]]
+            raise RuntimeError("rand_tables: %d-bit refill of a random table is not the MT recurrence with N=%d M=%d A=%#x UM=%#x LM=%#x: "
+                               "first differing table word %d (of %d differing)" % (bits, N, M, A, UM, LM, bad[0], len(bad)))
+    # seeding
+    S = [[int(t) for t in l.split()[1:]] for l in lines if l.split()[0] == "S" + b]
+    if bits == 32:
+        mult = S[0][2]                      # seed 1: mt[1] = mult * 1
+        for seed, m0, m1, m2, mlast, sd in S:
+            if m0 != seed or sd != seed or m1 != (mult * m0) & W or m2 != (mult * m1) & W or mlast != (pow(mult, N - 1, 1 << 32) * seed) & W:
+                raise RuntimeError("rand_tables: mersenne_seed_table(%d) is not mt[z] = %d * mt[z-1]" % (seed, mult))
+        seedc = [mult]
+    else:
+        s0 = S[0]                           # seed 0: mt[1] = 1, mt[2] = mult * (1 ^ (1 >> shift)) + 2 = mult + 2
+        mult = (s0[3] - 2) & W
+        if s0[1] != 0 or s0[2] != 1 or mult % 2 == 0: raise RuntimeError("rand_tables: mt64_seed_table(0) probe has an unexpected shape")
+        s1 = S[1]                           # seed 2^63: (mt[1] - 1) / mult = 2^63 ^ 2^(63-shift)
+        v = ((s1[2] - 1) * pow(mult, -1, 1 << 64)) & W
+        low = v ^ (1 << 63)
+        if low == 0 or low & (low - 1): raise RuntimeError("rand_tables: cannot derive the seeding shift")
+        shift = 63 - (low.bit_length() - 1)
+        for seed, m0, m1, m2, m3, mlast, sd in S:
+            x = [seed]
+            for z in range(1, N): x.append((mult * (x[-1] ^ (x[-1] >> shift)) + z) & W)
+            if [m0, m1, m2, m3, mlast, sd] != [x[0], x[1], x[2], x[3], x[N - 1], seed]:
+                raise RuntimeError("rand_tables: mt64_seed_table(%d) is not mt[z] = %d * (mt[z-1] ^ mt[z-1] >> %d) + z" % (seed, mult, shift))
+        seedc = [mult, shift]
+    return [N, M, A, UM, LM] + seedc, basis
+
+def probe_constants(ctx):
+    lines = [l for l in _probe(ctx).split("\n") if l.strip()]
+    c32, b32 = _derive(lines, 32)
+    c64, b64 = _derive(lines, 64)
+    K = {int(l.split()[1]): int(l.split()[2]) for l in lines if l.split()[0] == "K32"}
+    c = K[0]; a = (K[1] - c) & 0xffffffff
+    for x, y in K.items():
+        if y != (a * x + c) & 0xffffffff: raise RuntimeError("rand_tables: knuth() is not x -> %d x + %d" % (a, c))
+    return {"mt32Consts": c32, "mt64Consts": c64, "lcgConsts": [a, c], "mt32TemperBasis": b32, "mt64TemperBasis": b64}
+
 def generate(ctx):
     s32 = _strip_comments(open(os.path.join(ctx.src, "esl_random.c")).read())
-    s64 = _strip_comments(open(os.path.join(ctx.src, "esl_rand64.c")).read())
     tabs = gauss_tables(s32)
-    lits = {
-        "mt32Temper": _int_lits(_func_body(s32, "mersenne_twister")),
-        "mt32Fill": _int_lits(_func_body(s32, "mersenne_fill_table")),
-        "mt32Seed": _int_lits(_func_body(s32, "mersenne_seed_table")),
-        "lcg": _int_lits(_func_body(s32, "knuth")),
-        "mt64Temper": _int_lits(_func_body(s64, "esl_rand64")),
-        "mt64Fill": _int_lits(_func_body(s64, "mt64_fill_table")),
-        "mt64Seed": _int_lits(_func_body(s64, "mt64_seed_table")),
-    }
+    lits = probe_constants(ctx)
     L = ["import EaselModel.Random.Samplers",
-         "/-! GENERATED by translate/rand_tables.py from esl_random.c / esl_rand64.c of the working tree — do not edit. -/",
+         "/-! GENERATED by translate/rand_tables.py from esl_random.c / esl_rand64.c of the working tree — do not edit.",
+         "    mt32Consts = [N, M, matrix A, upper mask, lower mask, seeding multiplier]; mt64Consts = the same + seeding shift;",
+         "    lcgConsts = [a, c]; mt32TemperBasis / mt64TemperBasis = tempering images of the words 1<<<0, 1<<<1, …  (values probed from",
+         "    the compiled functions, independent of how the source spells them). -/",
          "namespace EaselModel.Generated.RandTables", "open EaselModel.Random", ""]
     for name in "adth":
         L.append("def gauss_%s : Array Float := #[" % name + ", ".join("Float.ofBits %s" % _dbits(v) for v in tabs[name]) + "]")
@@ -67,6 +232,6 @@ def generate(ctx):
     L.append("def gaussSizes : List Nat := [%d, %d, %d, %d]" % tuple(len(tabs[n]) for n in "adth"))
     L.append("")
     for k, v in lits.items():
-        L.append("def %sLits : List Nat := [%s]" % (k, ", ".join(str(x) for x in v)))
+        L.append("def %s : List Nat := [%s]" % (k, ", ".join(str(x) for x in v)))
     L += ["", "end EaselModel.Generated.RandTables", ""]
     return {OUT: "\n".join(L)}, tabs, lits
